@@ -168,6 +168,16 @@ CLAIMED = {
         "note": _NOTE + " Evaluator is subclassed only to resolve the names of the generated bodies; positions fed from binding (signature.py) are enumerated, not derived.",
         "technique": "CrossHair symbolic execution + z3; symbolic preorder; 70-line reference interpreter from docs/type_evaluation.md",
     },
+    "C12": {
+        "design_ref": "DESIGN.md sections 6 and 10.10",
+        "text": ("VALUE-API HALF ONLY (second sentence of the statement): for ordered pairs of well-formed values from the C14 shapes and "
+                 "the depth-1 type vocabulary, can_assign in both directions (also in exclude-Any mode), unite_values and "
+                 "substitute_typevars return a result of the documented type instead of raising, for every payload in the bound. The "
+                 "first half - the checker never crashes on any syntactically valid module - runs through NameCheckVisitor, which "
+                 "cannot be executed symbolically here, and is NOT covered."),
+        "note": _NOTE + " Callables, protocols and synthetic types are outside; payloads bounded to [0,1] because KnownValue.substitute_typevars realises its payload.",
+        "technique": "CrossHair symbolic execution + z3; any escaping exception is a counterexample",
+    },
 }
 
 _PENDING = "harness not landed yet in this commit (build in progress; see DESIGN.md section 9)"
@@ -175,7 +185,6 @@ _PENDING = "harness not landed yet in this commit (build in progress; see DESIGN
 NA = {
     "C09": "reaching definitions live in the composition of scope calls made by the 6100-line visitor, which cannot be executed symbolically here (every path aborts); inputs are program skeletons with no solver-representable data (DESIGN.md section 6)",
     "C10": "nondeterminism sits in CPython's C hash tables / per-process hash seed and in checker-wide caches filled by whole-file runs; CrossHair realises at that boundary, so no symbolic encoding of iteration order is within reach (DESIGN.md section 6)",
-    "C12": "totality quantifies over every syntactically valid module and the catch-all wraps NameCheckVisitor.visit, out of symbolic reach; exceptions escaping the value API are still counterexamples inside C03/C04/C14 harnesses (DESIGN.md section 6)",
     "C13": "inputs are typing objects, AST trees and inspect signatures dispatched by identity across C boundaries; nothing for a solver to range over - would degenerate to a differential test (DESIGN.md section 6)",
     "C19": "known operands are operated on by real C slot wrappers that reject symbolic proxies; dispatch lives in the visitor; the only symbolic-friendly sub-kernel (literal tuple subscripts) is covered under C01 (DESIGN.md section 6)",
 }
